@@ -1,5 +1,483 @@
-/- Helper lemmas for C15 (store, retrieval log, memo): invariants as `Closed` predicates. -/
+/- Helper lemmas for C15 (store, retrieval log, memo): invariants as `Closed` predicates.
+
+  Every evaluator-wide statement of C15 is "the final resolver state is `R`-related to the initial
+  one" for a reflexive, transitive relation `R` on resolver states that ignores the scope stack and
+  contains every elementary move of the resolver (`Step`).  `presClosed` shows once and for all that
+  such an `R` gives a `Closed` predicate `Pres R`; `pres_eval`, `pres_stepOp`, `pres_runHist` are the
+  consequences for the evaluator and for histories of operations on one validator. -/
 import JS.Proofs.Framework
 import JS.History
 namespace JS
+
+/-! ### `Json.lookup` and `storeSet` -/
+
+theorem lookup_storeSet_self (k : Str) (v : Json) (s : List (Str × Json)) :
+    Json.lookup k (storeSet k v s) = some v := by
+  induction s with
+  | nil => simp [storeSet, Json.lookup]
+  | cons p rest ih =>
+    obtain ⟨k', v'⟩ := p
+    unfold storeSet
+    split
+    · simp [Json.lookup]
+    · rename_i hne
+      simp [Json.lookup, hne, ih]
+
+theorem lookup_storeSet_ne {k k' : Str} (hne : k' ≠ k) (v : Json) (s : List (Str × Json)) :
+    Json.lookup k' (storeSet k v s) = Json.lookup k' s := by
+  induction s with
+  | nil =>
+    have : ¬ k = k' := fun h => hne h.symm
+    simp [storeSet, Json.lookup, this]
+  | cons p rest ih =>
+    obtain ⟨k1, v1⟩ := p
+    unfold storeSet
+    split
+    · rename_i heq
+      subst heq
+      have : ¬ k1 = k' := fun h => hne h.symm
+      simp [Json.lookup, this]
+    · by_cases h1 : k1 = k'
+      · simp [Json.lookup, h1]
+      · simp [Json.lookup, h1, ih]
+
+/-- writing a fresh key keeps every existing binding -/
+theorem lookup_storeSet_fresh {key k : Str} {v doc : Json} {s : List (Str × Json)}
+    (hfresh : Json.lookup key s = none) (h : Json.lookup k s = some v) :
+    Json.lookup k (storeSet key doc s) = some v := by
+  have hne : k ≠ key := by
+    intro he
+    subst he
+    rw [hfresh] at h
+    cases h
+  rw [lookup_storeSet_ne hne]
+  exact h
+
+theorem lookup_storeSet_isSome {key k : Str} {doc : Json} {s : List (Str × Json)}
+    (h : (Json.lookup k s).isSome = true) : (Json.lookup k (storeSet key doc s)).isSome = true := by
+  by_cases he : k = key
+  · subst he
+    rw [lookup_storeSet_self]
+    rfl
+  · rw [lookup_storeSet_ne he]
+    exact h
+
+/-! ### elementary moves of the resolver -/
+
+/-- what one call of `resolve` can do to the resolver state: touch the memo only; a failed
+    retrieval; a successful retrieval of a document whose normalised key was not in the store -/
+inductive Step (env : Env) (st : RState) : RState → Prop
+  | memo (m : List (Str × Json)) : Step env st { st with memo := m }
+  | fail (u : Str) (m : List (Str × Json)) :
+      Step env st { st with memo := m, clock := st.clock + 1, fetchLog := st.fetchLog ++ [(u, false)] }
+  | ok (u key : Str) (doc : Json) (m : List (Str × Json)) :
+      env.urinorm u = some key → Json.lookup key st.store = none →
+      Step env st { st with memo := m, clock := st.clock + 1, fetchLog := st.fetchLog ++ [(u, true)],
+                            store := if st.cacheRemote then storeSet key doc st.store else st.store }
+
+theorem Step.same (env : Env) (st : RState) : Step env st st := Step.memo st.memo
+
+theorem Step.setMemo {env : Env} {st st' : RState} (h : Step env st st') (m : List (Str × Json)) :
+    Step env st { st' with memo := m } := by
+  cases h with
+  | memo _ => exact Step.memo m
+  | fail u _ => exact Step.fail u m
+  | ok u key doc _ hn hs => exact Step.ok u key doc m hn hs
+
+theorem resolveRemote_step (env : Env) (u key : Str) (st : RState)
+    (hn : env.urinorm u = some key) (hs : Json.lookup key st.store = none) :
+    Step env st (resolveRemote env u key st).2 := by
+  unfold resolveRemote
+  split
+  · exact Step.same env st
+  · exact Step.fail u st.memo
+  · rename_i doc _
+    exact Step.ok u key doc st.memo hn hs
+
+theorem resolveFromUrl_step (env : Env) (url : Str) (st : RState) :
+    Step env st (resolveFromUrl env url st).2 := by
+  unfold resolveFromUrl
+  split
+  · exact Step.same env st
+  · split
+    · exact Step.same env st
+    · split
+      · exact Step.same env st
+      · rename_i u _ _ _ key hn _ hs
+        have h := resolveRemote_step env u key st hn hs
+        split
+        · rename_i heq; rw [heq] at h; exact h
+        · rename_i heq; rw [heq] at h; exact h
+
+theorem resolve_step (env : Env) (ref : Str) (st : RState) :
+    Step env st (resolve env ref st).2 := by
+  unfold resolve
+  split
+  · exact Step.same env st
+  · split
+    · exact Step.memo _
+    · have h := resolveFromUrl_step env ‹_› st
+      split
+      · rename_i heq; rw [heq] at h; exact h.setMemo _
+      · rename_i heq; rw [heq] at h; exact h
+      · rename_i heq; rw [heq] at h; exact h
+
+/-! ### the generic invariant -/
+
+/-- the generator leaves the resolver in a state `R`-related to the one it found -/
+structure Pres (R : RState → RState → Prop) (g : Gen) : Prop where
+  pres : ∀ b st, R st (g b st).st
+
+/-- a relation on resolver states that every run of the evaluator respects -/
+structure StRel (env : Env) (R : RState → RState → Prop) : Prop where
+  refl : ∀ st, R st st
+  trans : ∀ {a b c}, R a b → R b c → R a c
+  /-- `R` ignores the scope stack -/
+  scopes : ∀ {st st' : RState} (x y : List Str),
+    R st st' → R { st with scopes := x } { st' with scopes := y }
+  step : ∀ {st st'}, Step env st st' → R st st'
+
+section
+variable {env : Env} {R : RState → RState → Prop} (H : StRel env R)
+include H
+
+theorem StRel.resolve (ref : Str) (st : RState) : R st (resolve env ref st).2 :=
+  H.step (resolve_step env ref st)
+
+theorem pres_emit (es : List Err) : Pres R (emit es) := by
+  refine ⟨fun b st => ?_⟩
+  have : (emit es b st).st = st := by
+    unfold emit
+    cases b with
+    | none => rfl
+    | some k => dsimp only; split <;> rfl
+  rw [this]
+  exact H.refl st
+
+theorem pres_stopG (s : Stop) : Pres R (stopG s) := ⟨fun _ st => H.refl st⟩
+
+theorem pres_andThen {g h : Gen} (hg : Pres R g) (hh : Pres R h) : Pres R (andThen g h) := by
+  refine ⟨fun b st => ?_⟩
+  have h1 := hg.pres b st
+  unfold andThen
+  split
+  · rename_i es st' heq
+    rw [heq] at h1
+    exact H.trans h1 (hh.pres (budgetSub b es.length) st')
+  · exact h1
+
+omit H in
+theorem pres_mapErrs (f : Err → Err) {g : Gen} (hg : Pres R g) : Pres R (mapErrs f g) :=
+  ⟨fun b st => hg.pres b st⟩
+
+theorem pres_inner {g : Gen} (b' : Option Nat) (k : List Err → Gen)
+    (hg : Pres R g) (hk : ∀ es, Pres R (k es)) : Pres R (inner g b' k) := by
+  refine ⟨fun b st => ?_⟩
+  have h1 := hg.pres b' st
+  unfold inner
+  split
+  · rename_i es st' heq
+    rw [heq] at h1
+    exact H.trans h1 ((hk es).pres b st')
+  · rename_i es st' heq
+    rw [heq] at h1
+    exact H.trans h1 ((hk es).pres b st')
+  · rename_i s st' _ _ heq
+    rw [heq] at h1
+    exact h1
+
+theorem pres_withScope (scope : Str) {g : Gen} (hg : Pres R g) :
+    Pres R (withScope env scope g) := by
+  refine ⟨fun b st => ?_⟩
+  unfold withScope
+  split
+  · exact H.refl st
+  · rename_i u _
+    have h1 := hg.pres b { st with scopes := u :: st.scopes }
+    have h2 := H.scopes st.scopes (g b { st with scopes := u :: st.scopes }).st.scopes.tail h1
+    exact h2
+
+theorem pres_kwRef {rec : Rec} (hrec : ∀ i s, Pres R (rec i s)) (ref inst : Json) :
+    Pres R (kwRef env rec ref inst) := by
+  refine ⟨fun b st => ?_⟩
+  unfold kwRef
+  split
+  · rename_i r
+    have h := H.resolve r st
+    split
+    · rename_i url target st1 heq
+      rw [heq] at h
+      exact H.trans h ((pres_withScope H url (hrec inst target)).pres b st1)
+    · rename_i heq; rw [heq] at h; exact h
+    · rename_i heq; rw [heq] at h; exact h
+  · exact H.refl st
+
+/-- **the generic lemma**: a reflexive, transitive relation that ignores the scope stack and
+    contains the resolver's elementary moves gives a `Closed` predicate -/
+theorem presClosed : Closed env (Pres R) where
+  emit := pres_emit H
+  stop := fun s _ => pres_stopG H s
+  andThen := pres_andThen H
+  mapErrs := pres_mapErrs
+  inner := pres_inner H
+  withScope := pres_withScope H
+  kwRef := fun hrec ref inst => pres_kwRef H hrec ref inst
+
+theorem pres_eval (impl : FmtImpl) (cfg : Cfg) (fuel : Nat) (i s : Json) (b : Option Nat) (st : RState) :
+    R st (eval env impl cfg fuel i s b st).st :=
+  (P_eval (presClosed H) impl cfg fuel i s).pres b st
+
+end
+
+/-! ### histories -/
+
+theorem isValid_st (g : Gen) (st : RState) : (isValid g st).2 = (g (some 1) st).st := by
+  unfold isValid
+  split <;> (rename_i heq; rw [heq])
+
+theorem validateM_st (g : Gen) (st : RState) : (validateM g st).2 = (g (some 1) st).st := by
+  unfold validateM
+  split <;> (rename_i heq; rw [heq])
+
+/-- each operation on a validator is the identity, one run of the evaluator, or one `resolve` -/
+theorem stepOp_cases (env : Env) (impl : FmtImpl) (cfg : Cfg) (fuel : Nat) (schema : Json)
+    (st : RState) (op : Op) :
+    (stepOp env impl cfg fuel schema st op).2 = st
+    ∨ (∃ i b, (stepOp env impl cfg fuel schema st op).2 = (eval env impl cfg fuel i schema b st).st)
+    ∨ (∃ ref, (stepOp env impl cfg fuel schema st op).2 = (resolve env ref st).2) := by
+  cases op with
+  | isValid i =>
+    refine Or.inr (Or.inl ⟨i, some 1, ?_⟩)
+    rw [← isValid_st]
+    simp only [stepOp]
+    split <;> (rename_i heq; rw [heq])
+  | exhaust i =>
+    exact Or.inr (Or.inl ⟨i, none, rfl⟩)
+  | validate i =>
+    refine Or.inr (Or.inl ⟨i, some 1, ?_⟩)
+    rw [← validateM_st]
+    simp only [stepOp]
+    split <;> (rename_i heq; rw [heq])
+  | take k i =>
+    simp only [stepOp]
+    by_cases hk : k = 0
+    · left; simp only [hk, if_true]
+    · right; left
+      refine ⟨i, some k, ?_⟩
+      simp only [hk, if_false]
+  | resolve ref =>
+    refine Or.inr (Or.inr ⟨ref, ?_⟩)
+    simp only [stepOp]
+    split <;> (rename_i heq; rw [heq])
+
+section
+variable {env : Env} {R : RState → RState → Prop} (H : StRel env R)
+include H
+
+theorem pres_stepOp (impl : FmtImpl) (cfg : Cfg) (fuel : Nat) (schema : Json) (st : RState) (op : Op) :
+    R st (stepOp env impl cfg fuel schema st op).2 := by
+  rcases stepOp_cases env impl cfg fuel schema st op with h | ⟨i, b, h⟩ | ⟨ref, h⟩
+  · rw [h]; exact H.refl st
+  · rw [h]; exact pres_eval H impl cfg fuel i schema b st
+  · rw [h]; exact H.resolve ref st
+
+theorem pres_runHist (impl : FmtImpl) (cfg : Cfg) (fuel : Nat) (schema : Json) (ops : List Op) :
+    ∀ st, R st (runHist env impl cfg fuel schema st ops).2 := by
+  induction ops with
+  | nil => intro st; exact H.refl st
+  | cons op ops ih =>
+    intro st
+    have h1 := pres_stepOp H impl cfg fuel schema st op
+    have h2 := ih (stepOp env impl cfg fuel schema st op).2
+    have : (runHist env impl cfg fuel schema st (op :: ops)).2
+        = (runHist env impl cfg fuel schema (stepOp env impl cfg fuel schema st op).2 ops).2 := by
+      rw [runHist]
+    rw [this]
+    exact H.trans h1 h2
+
+end
+
+/-! ### instance 1: with `cache_remote` off the store is never written -/
+
+def ROff (st st' : RState) : Prop :=
+  st.cacheRemote = false → st'.store = st.store ∧ st'.cacheRemote = false
+
+theorem rOff (env : Env) : StRel env ROff where
+  refl := fun st h => ⟨rfl, h⟩
+  trans := fun h1 h2 h => by
+    obtain ⟨a, b⟩ := h1 h
+    obtain ⟨c, d⟩ := h2 b
+    exact ⟨c.trans a, d⟩
+  scopes := fun _ _ h hc => h hc
+  step := fun hs hc => by
+    cases hs with
+    | memo m => exact ⟨rfl, hc⟩
+    | fail u m => exact ⟨rfl, hc⟩
+    | ok u key doc m hn hl =>
+      refine ⟨?_, hc⟩
+      simp only [hc]
+      rfl
+
+/-! ### instance 2: the store only grows -/
+
+def RGrow (st st' : RState) : Prop :=
+  ∀ k v, Json.lookup k st.store = some v → Json.lookup k st'.store = some v
+
+theorem rGrow (env : Env) : StRel env RGrow where
+  refl := fun _ _ _ h => h
+  trans := fun h1 h2 k v h => h2 k v (h1 k v h)
+  scopes := fun _ _ h => h
+  step := fun hs k v h => by
+    cases hs with
+    | memo m => exact h
+    | fail u m => exact h
+    | ok u key doc m hn hl =>
+      dsimp only
+      split
+      · exact lookup_storeSet_fresh hl h
+      · exact h
+
+/-! ### instance 3: the retrieval log only grows, the clock counts it -/
+
+def RLog (st st' : RState) : Prop :=
+  ∃ l, st'.fetchLog = st.fetchLog ++ l ∧ st'.clock = st.clock + l.length
+    ∧ st'.cacheRemote = st.cacheRemote ∧ st'.memoCap = st.memoCap
+
+theorem rLog (env : Env) : StRel env RLog where
+  refl := fun st => ⟨[], by simp⟩
+  trans := fun h1 h2 => by
+    obtain ⟨l1, a1, b1, c1, d1⟩ := h1
+    obtain ⟨l2, a2, b2, c2, d2⟩ := h2
+    refine ⟨l1 ++ l2, ?_, ?_, c2.trans c1, d2.trans d1⟩
+    · rw [a2, a1, List.append_assoc]
+    · rw [b2, b1, List.length_append, Nat.add_assoc]
+  scopes := fun _ _ h => h
+  step := fun hs => by
+    cases hs with
+    | memo m => exact ⟨[], by simp⟩
+    | fail u m => exact ⟨[(u, false)], rfl, rfl, rfl, rfl⟩
+    | ok u key doc m hn hl => exact ⟨[(u, true)], rfl, rfl, rfl, rfl⟩
+
+/-! ### instance 4: "fetched at most once" -/
+
+/-- the invariant behind "fetched at most once" (the same proposition as `JS.Props.C15.FetchInv`) -/
+def FetchInvS (env : Env) (st : RState) : Prop :=
+  (∀ u, (u, true) ∈ st.fetchLog → ∃ k, env.urinorm u = some k ∧ (Json.lookup k st.store).isSome = true)
+  ∧ ((st.fetchLog.filter (·.2)).map (fun p => env.urinorm p.1)).Nodup
+
+def RInv (env : Env) (st st' : RState) : Prop :=
+  st.cacheRemote = true → FetchInvS env st → (FetchInvS env st' ∧ st'.cacheRemote = true)
+
+theorem fetchInvS_fresh (env : Env) (st : RState) (h : st.fetchLog = []) : FetchInvS env st := by
+  unfold FetchInvS
+  rw [h]
+  exact ⟨fun u hu => (by cases hu), List.nodup_nil⟩
+
+theorem fetchInvS_fail (env : Env) (st : RState) (u : Str) (m : List (Str × Json))
+    (h : FetchInvS env st) :
+    FetchInvS env { st with memo := m, clock := st.clock + 1, fetchLog := st.fetchLog ++ [(u, false)] } := by
+  obtain ⟨h1, h2⟩ := h
+  refine ⟨fun u' hu' => ?_, ?_⟩
+  · dsimp only at hu' ⊢
+    rcases List.mem_append.1 hu' with hm | hm
+    · exact h1 u' hm
+    · simp at hm
+  · dsimp only
+    simpa using h2
+
+theorem fetchInvS_ok (env : Env) (st : RState) (u key : Str) (doc : Json) (m : List (Str × Json))
+    (hn : env.urinorm u = some key) (hl : Json.lookup key st.store = none)
+    (h : FetchInvS env st) :
+    FetchInvS env { st with memo := m, clock := st.clock + 1, fetchLog := st.fetchLog ++ [(u, true)],
+                            store := storeSet key doc st.store } := by
+  obtain ⟨h1, h2⟩ := h
+  refine ⟨fun u' hu' => ?_, ?_⟩
+  · dsimp only at hu' ⊢
+    rcases List.mem_append.1 hu' with hm | hm
+    · obtain ⟨k, hk, hs⟩ := h1 u' hm
+      exact ⟨k, hk, lookup_storeSet_isSome hs⟩
+    · have : u' = u := by simpa using hm
+      subst this
+      exact ⟨key, hn, by rw [lookup_storeSet_self]; rfl⟩
+  · dsimp only
+    have hnew : env.urinorm u ∉ (st.fetchLog.filter (·.2)).map (fun p => env.urinorm p.1) := by
+      intro hmem
+      obtain ⟨p, hp, hpe⟩ := List.mem_map.1 hmem
+      obtain ⟨hp1, hp2⟩ := List.mem_filter.1 hp
+      obtain ⟨u', b'⟩ := p
+      dsimp only at hp2 hpe
+      have hb : b' = true := by simpa using hp2
+      subst hb
+      obtain ⟨k, hk, hs⟩ := h1 u' hp1
+      rw [hpe, hn] at hk
+      cases hk
+      rw [hl] at hs
+      cases hs
+    rw [List.filter_append, List.map_append]
+    simp only [List.filter_cons_of_pos, List.filter_nil, List.map_cons, List.map_nil]
+    rw [List.nodup_append]
+    refine ⟨h2, by simp, ?_⟩
+    intro a ha b hb
+    have : b = env.urinorm u := by simpa using hb
+    subst this
+    intro hab
+    subst hab
+    exact hnew ha
+
+theorem rInv (env : Env) : StRel env (RInv env) where
+  refl := fun _ hc hi => ⟨hi, hc⟩
+  trans := fun h1 h2 hc hi => by
+    obtain ⟨a, b⟩ := h1 hc hi
+    exact h2 b a
+  scopes := fun _ _ h hc hi => h hc hi
+  step := fun hs hc hi => by
+    cases hs with
+    | memo m => exact ⟨hi, hc⟩
+    | fail u m => exact ⟨fetchInvS_fail env _ u m hi, hc⟩
+    | ok u key doc m hn hl =>
+      refine ⟨?_, hc⟩
+      have := fetchInvS_ok env _ u key doc m hn hl hi
+      simpa only [hc, if_true] using this
+
+/-! ### the memo is written only by a successful `resolve` -/
+
+theorem resolveRemote_memo (env : Env) (uri key : Str) (st : RState) :
+    (resolveRemote env uri key st).2.memo = st.memo := by
+  unfold resolveRemote
+  split <;> rfl
+
+theorem resolveFromUrl_memo (env : Env) (url : Str) (st : RState) :
+    (resolveFromUrl env url st).2.memo = st.memo := by
+  unfold resolveFromUrl
+  split
+  · rfl
+  · split
+    · rfl
+    · split
+      · rfl
+      · rename_i u _ _ _ key _ _ _
+        have h := resolveRemote_memo env u key st
+        split
+        · rename_i heq; rw [heq] at h; exact h
+        · rename_i heq; rw [heq] at h; exact h
+
+theorem resolve_raise_memo (env : Env) (ref : Str) (st : RState) (e : Exc)
+    (h : (resolve env ref st).1 = .raise e) : (resolve env ref st).2.memo = st.memo := by
+  unfold resolve at h ⊢
+  cases hu : env.urljoin st.top ref with
+  | none => rfl
+  | some url =>
+    simp only [hu] at h ⊢
+    cases hm : memoLookup url st.memo with
+    | some p => simp only [hm] at h; cases h
+    | none =>
+      simp only [hm] at h ⊢
+      have hmemo := resolveFromUrl_memo env url st
+      rcases hr : resolveFromUrl env url st with ⟨r, st'⟩
+      rw [hr] at h hmemo
+      cases r with
+      | ok v => cases h
+      | raise e' => exact hmemo
+      | miss q => exact hmemo
+
 end JS
